@@ -52,6 +52,11 @@ theorem no_buffering_stage :
     agent_flushInterval = 100000000 ∧
     Skel.calls "w.bodyWriter.Write" skel_utils_srw_Write = true := by decide
 
+/-- regenerated fact: no timeout is configured on the transports between the agent and the backend (HTTP/1.1 or forced
+    HTTP/2): a response may pause for any length of time between chunks and still be relayed (an idle or ping
+    timeout there would close the backend connection in the pause and end the relayed response early) -/
+theorem backend_transport_has_no_timeouts : agent_backendTransportTimeouts = [] := by decide
+
 /-- regenerated fact: on GCE the periodic refresh of the VM identity token fetches the new token *before* taking the
     transport's lock; every request to the proxy (also the upload that streams a response) takes that lock to read
     the token, so a slow or failing metadata server cannot hold back chunks that the backend has already flushed -/
